@@ -4,30 +4,201 @@
    ([c12_no_idle_slot], [inflight <= max_inflight]) is part of [Inv] and holds for EVERY conforming history,
    hard write failures included (Inv.v). *)
 From PahoV Require Import Base.Prelude Codec.Mid Codec.MidProofs Session2.Model Session2.Check Session2.Statements
-  Session2.Bridge Session2.Calm Session2.LLemmas Session2.LInv Session2.Inv Session2.LC12.
+  Session2.Bridge Session2.Fail Session2.LLemmas Session2.LInv Session2.Inv Session2.Full Session2.LC12.
 From PahoV Require Session2.Legacy.
 
-Lemma c12_gen_calm c sel : cfg_ok c = true -> view_ok sel -> forall ops,
-  conforming c ops = true -> no_fail ops = true -> c12_gen_ok sel c (optrace c ops) = true.
+(* ================================================================ hard write failures: the window *)
+Section Window3.
+Variable c : cfg.
+Hypothesis Hcfg : cfg_ok c = true.
+Variable sel : event -> option pkt.
+Hypothesis Hsel : view_ok sel.
+Notation kev := (k12_ev sel (c_max c)).
+
+Lemma k12_ev_ok k e : k12_ok (kev k e) = true -> k12_ok k = true.
 Proof.
-  intros Hcfg Hsel ops Hc Hn. unfold c12_gen_ok, optrace.
-  destruct (lift_calm c (LInv.Inv c) (LInv.inv_step c Hcfg) k12 (fun k evs => fold_left (k12_ev sel (c_max c)) evs k) R12
-              (win_step c Hcfg sel Hsel) ops (init c) k12_init (LInv.inv_init c) eq_refl Hn Hc) as (s' & H & _).
+  assert (H : forall e', k12_ok (match sel e' with
+                          | Some p => match ptag p with
+                                      | Some tag => let u := zadd tag (k12_un k) in mkK12 u (k12_ok k && ((c_max c =? 0) || (zlen u <=? c_max c)))
+                                      | None => k end
+                          | None => k end) = true -> k12_ok k = true).
+  { intros e'. destruct (sel e'); [|exact (fun x => x)]. destruct (ptag p); [|exact (fun x => x)].
+    cbn [k12_ok]. intros H. apply andb_true_iff in H as [H _]. exact H. }
+  destruct e; cbn [k12_ev k12_ok]; try exact (H _); exact (fun x => x).
+Qed.
+
+Lemma k12_fold_ok : forall evs k, k12_ok (fold_left kev evs k) = true -> k12_ok k = true.
+Proof. induction evs as [|e evs IH]; intros k H; [exact H|]. cbn [fold_left] in H. apply (k12_ev_ok k e). exact (IH _ H). Qed.
+
+Lemma k12_ev_nodup k e : NoDup (k12_un k) -> NoDup (k12_un (kev k e)).
+Proof.
+  intros Hnd.
+  assert (H : forall e', NoDup (k12_un (match sel e' with
+                          | Some p => match ptag p with
+                                      | Some tag => let u := zadd tag (k12_un k) in mkK12 u (k12_ok k && ((c_max c =? 0) || (zlen u <=? c_max c)))
+                                      | None => k end
+                          | None => k end))).
+  { intros e'. destruct (sel e'); [|exact Hnd]. destruct (ptag p); [|exact Hnd]. cbn [k12_un]. apply zadd_NoDup. exact Hnd. }
+  destruct e; cbn [k12_ev k12_un]; try exact (H _); [apply zrem_NoDup; exact Hnd | constructor].
+Qed.
+
+Lemma k12_fold_nodup : forall evs k, NoDup (k12_un k) -> NoDup (k12_un (fold_left kev evs k)).
+Proof. induction evs as [|e evs IH]; intros k H; [exact H|]. cbn [fold_left]. apply IH. apply k12_ev_nodup. exact H. Qed.
+
+Lemma R12_closed s' k' : k12_ok k' = true -> NoDup (k12_un k') -> sock s' = false -> R12 s' k'.
+Proof. intros H1 H2 H3. split; [exact H1|]. split; [exact H2|]. intros H. congruence. Qed.
+
+(* the events of an operation on a dead socket are, for this checker, a prefix of the events of the two-mode
+   operation on the same state *)
+Lemma R12_prefix s sb s' k a b : R12 s k -> R12 sb (fold_left kev (a ++ b) k) -> sock s' = false -> R12 s' (fold_left kev a k).
+Proof.
+  intros (_ & Hnd & _) (Hok & _ & _) Hs'. rewrite fold_left_app in Hok.
+  apply R12_closed; [exact (k12_fold_ok _ _ Hok) | apply k12_fold_nodup; exact Hnd | exact Hs'].
+Qed.
+
+Definition plain12 (e : event) : Prop := evtag e = [] /\ match e with SockOpened _ | CbPublish _ _ => False | _ => True end.
+
+Lemma R12_sf s b k : R12 s k -> R12 (set_failing s b) k.
+Proof. destruct s. exact (fun H => H). Qed.
+
+Lemma win3_pub0 s k : Inv c s -> dead s -> R12 s k ->
+  R12 (fst (do_publish c s 0)) (fold_left kev (snd (do_publish c s 0)) k).
+Proof.
+  intros I Hd HR. rewrite (publish0_dead c s Hd). cbn [fst snd].
+  rewrite (k12_fold_plain sel Hsel).
+  - destruct HR as (Hok & Hnd & _). apply R12_closed; [exact Hok | exact Hnd | reflexivity].
+  - repeat constructor.
+Qed.
+
+Lemma win3_pubw s q k : Inv c s -> dead s -> pub_wrote c s q = true -> conf_op c s (OPublish q) = true -> R12 s k ->
+  R12 (fst (do_publish c s q)) (fold_left kev (snd (do_publish c s q)) k).
+Proof.
+  intros I Hd Hw Hconf HR.
+  pose proof (win_step c Hcfg sel Hsel s (Legacy.OPublish q) k I Hconf HR) as HL. cbn [Legacy.step] in HL.
+  destruct (legacy_publish_dead_wrote c s q Hd Hw) as (sb & E & _). rewrite E in HL. cbn [fst snd] in HL.
+  rewrite (publish_dead_wrote c s q Hd Hw). cbn [fst snd].
+  set (h := Handed (conn s) (PPublish (mid_next (last_mid s)) q false (ntag s))) in *.
+  change [h; SockLost; Ret (ntag s) (mid_next (last_mid s)) q 4] with ([h] ++ [SockLost; Ret (ntag s) (mid_next (last_mid s)) q 4]).
+  rewrite fold_left_app, (k12_fold_plain sel Hsel _ [SockLost; Ret (ntag s) (mid_next (last_mid s)) q 4]) by (repeat constructor).
+  apply (R12_prefix s sb _ k [h] [Ret (ntag s) (mid_next (last_mid s)) q 0] HR HL).
+  cbn [sock with_q]. apply legacy_publish_sock || (rewrite legacy_publish_sock; reflexivity).
+Qed.
+
+Lemma win3_connack s r k : Inv c s -> dead s -> cack s = false -> R12 s k ->
+  R12 (fst (do_rx c s (IConnack 0) r)) (fold_left kev (snd (do_rx c s (IConnack 0) r)) k).
+Proof.
+  intros I Hd Hck HR. pose proof Hd as (Hs & _ & _).
+  assert (Hconf : Legacy.conf_op c s (Legacy.ORx (IConnack 0) r) = true) by (cbn [Legacy.conf_op]; rewrite Hs, Hck; reflexivity).
+  pose proof (win_step c Hcfg sel Hsel s (Legacy.ORx (IConnack 0) r) k I Hconf HR) as HL. cbn [Legacy.step] in HL.
+  destruct (connack_dead_cases c s r Hd) as [E|[(sd & E & Hsd & _)|(sd & l1 & m & l2 & x & rest & E & Hsd & _ & _ & _ & _ & _ & EL & _)]].
+  - rewrite E. exact HL.
+  - rewrite E. cbn [fst snd]. rewrite (k12_fold_plain sel Hsel) by (repeat constructor).
+    destruct HR as (Hok & Hnd & _). apply R12_closed; assumption.
+  - rewrite E. cbn [fst snd]. rewrite EL in HL.
+    change [Inp (IConnack 0); Handed (conn s) (q_pkt x); SockLost] with ([Inp (IConnack 0); Handed (conn s) (q_pkt x)] ++ [SockLost]).
+    rewrite fold_left_app, (k12_fold_plain sel Hsel _ [SockLost]) by (repeat constructor).
+    change (Inp (IConnack 0) :: Handed (conn s) (q_pkt x) :: rest) with ([Inp (IConnack 0); Handed (conn s) (q_pkt x)] ++ rest) in HL.
+    exact (R12_prefix s _ sd k _ rest HR HL Hsd).
+Qed.
+
+End Window3.
+
+Lemma c12_gen_full c sel : cfg_ok c = true -> view_ok sel -> forall ops,
+  conforming c ops = true -> c12_gen_ok sel c (optrace c ops) = true.
+Proof.
+  intros Hcfg Hsel ops Hc. unfold c12_gen_ok, optrace.
+  destruct (lift_flat c Hcfg k12 (k12_ev sel (c_max c)) R12 (win_step c Hcfg sel Hsel) R12_sf
+              (win3_pub0 c sel Hsel) (win3_pubw c Hcfg sel Hsel) (win3_connack c Hcfg sel Hsel)
+              ops (init c) k12_init (inv3_init c) Hc) as (s' & H & _).
   - split; [reflexivity|]. split; [constructor|]. intros _. apply incl_nil_l.
   - exact H.
 Qed.
 
-Theorem c12_window_calm_proved : C12_window_calm_stmt.
-Proof. intros c ops Hcfg Hc Hn. apply c12_gen_calm; [assumption | exact view_tx | assumption | assumption]. Qed.
+(* EVERY conforming history, hard write failures included *)
+Theorem c12_window_proved : C12_window_stmt.
+Proof. intros c ops Hcfg Hc. apply c12_gen_full; [assumption | exact view_tx | assumption]. Qed.
 
-Theorem c12_handed_calm_proved : C12_handed_calm_stmt.
-Proof. intros c ops Hcfg Hc Hn. apply c12_gen_calm; [assumption | exact view_handed | assumption | assumption]. Qed.
+Theorem c12_handed_proved : C12_handed_stmt.
+Proof. intros c ops Hcfg Hc. apply c12_gen_full; [assumption | exact view_handed | assumption]. Qed.
 
-Theorem c12_queue_calm_proved : C12_queue_calm_stmt.
+(* ================================================================ hard write failures: the queue bound *)
+Section Queue3.
+Variable c : cfg.
+Hypothesis Hcfg : cfg_ok c = true.
+Notation qv := (qev c).
+
+Lemma Rq_tags s s' k : tags (out s') = tags (out s) -> ntag s' = ntag s ->
+  (forall t, In t (q0tags (outq s')) -> In t (q0tags (outq s))) -> Rq s k -> Rq s' k.
 Proof.
-  intros c ops Hcfg Hc Hn. unfold c12_queue_ok, optrace.
-  destruct (lift_calm c (LInv.Inv c) (LInv.inv_step c Hcfg) k12q (fun k evs => fold_left (qev c) evs k) Rq
-              (q_step c Hcfg) ops (init c) (mkK12q [] true) (LInv.inv_init c) eq_refl Hn Hc) as (s' & H & _).
+  intros E1 E2 E3 (Hok & Hl & Hq). split; [exact Hok|]. split; [rewrite E1; exact Hl|].
+  intros t Ht. rewrite E1, E2. apply Hq. apply E3. exact Ht.
+Qed.
+
+Lemma Rq_sf s b k : Rq s k -> Rq (set_failing s b) k.
+Proof. destruct s. exact (fun H => H). Qed.
+
+Lemma Rq_lost s k : Rq s k -> Rq (lost s) k.
+Proof. apply Rq_tags; try reflexivity. intros t Ht. exact Ht. Qed.
+
+Lemma q3_pub0 s k : Inv c s -> dead s -> Rq s k ->
+  Rq (fst (do_publish c s 0)) (fold_left qv (snd (do_publish c s 0)) k).
+Proof.
+  intros I Hd HR. pose proof Hd as (Hs & _ & _).
+  pose proof (q_step c Hcfg s (Legacy.OPublish 0) k I eq_refl HR) as HL. cbn [Legacy.step] in HL.
+  rewrite (publish0_dead c s Hd). cbn [fst snd]. apply Rq_lost.
+  assert (E : snd (Legacy.do_publish c s 0) =
+              [Handed (conn s) (PPublish (mid_next (last_mid s)) 0 false (ntag s)); Ret (ntag s) (mid_next (last_mid s)) 0 0]).
+  { unfold Legacy.do_publish. cbv zeta. cbn [Z.eqb]. rewrite Hs.
+    set (s1 := mkS _ _ _ _ _ _ _ _ _ _ _ _).
+    assert (Hc1 : Legacy.can_write s1 = false) by (destruct Hd as (_ & _ & Hb); unfold Legacy.can_write; cbn; rewrite Hb; reflexivity).
+    rewrite (legacy_send_blocked s1 _ Hc1). reflexivity. }
+  rewrite E in HL. exact HL.
+Qed.
+
+Lemma q3_pubw s q k : Inv c s -> dead s -> pub_wrote c s q = true -> conf_op c s (OPublish q) = true -> Rq s k ->
+  Rq (fst (do_publish c s q)) (fold_left qv (snd (do_publish c s q)) k).
+Proof.
+  intros I Hd Hw Hconf HR.
+  assert (Hq0 : (q =? 0) = false).
+  { unfold pub_wrote in Hw. destruct (q =? 0); [discriminate|reflexivity]. }
+  pose proof (q_step c Hcfg (lost s) (Legacy.OPublish q) k (inv_lost c s I) Hconf (Rq_lost s k HR)) as HL. cbn [Legacy.step] in HL.
+  destruct (legacy_publish_offline_wrote c (lost s) q eq_refl Hw) as (so & E & Eo & En & Eq & _). rewrite E in HL. cbn [fst snd] in HL.
+  rewrite (publish_dead_wrote c s q Hd Hw), E. cbn [fst snd].
+  assert (Ef : fold_left qv [Handed (conn s) (PPublish (mid_next (last_mid s)) q false (ntag s)); SockLost;
+                             Ret (ntag s) (mid_next (last_mid s)) q 4] k =
+               fold_left qv [Ret (ntag (lost s)) (mid_next (last_mid (lost s))) q 4] k) by reflexivity.
+  rewrite Ef. revert HL. apply Rq_tags; try reflexivity.
+  intros t Ht. cbn [outq with_q] in Ht. rewrite Eq. cbn [outq lost with_sock].
+  rewrite q0tags_app in Ht. apply in_app_or in Ht as [Ht|Ht]; [exact Ht|].
+  exfalso. cbn in Ht. rewrite Hq0 in Ht. exact Ht.
+Qed.
+
+Lemma q3_connack s r k : Inv c s -> dead s -> cack s = false -> Rq s k ->
+  Rq (fst (do_rx c s (IConnack 0) r)) (fold_left qv (snd (do_rx c s (IConnack 0) r)) k).
+Proof.
+  intros I Hd Hck HR. pose proof Hd as (Hs & _ & _).
+  assert (Hconf : Legacy.conf_op c s (Legacy.ORx (IConnack 0) r) = true) by (cbn [Legacy.conf_op]; rewrite Hs, Hck; reflexivity).
+  pose proof (q_step c Hcfg s (Legacy.ORx (IConnack 0) r) k I Hconf HR) as HL. cbn [Legacy.step] in HL.
+  destruct (connack_dead_cases c s r Hd) as [E|[(sd & E & Hsd & Eo & Eq & En & _)|(sd & l1 & m & l2 & x & rest & E & Hsd & So & Eo & Eq & En & Ex & _)]].
+  - rewrite E. exact HL.
+  - rewrite E. cbn [fst snd fold_left]. revert HR. apply Rq_tags; [rewrite Eo; reflexivity | exact En|].
+    intros t Ht. rewrite Eq in Ht. exact Ht.
+  - rewrite E. cbn [fst snd fold_left]. revert HR. apply Rq_tags; [| exact En|].
+    + rewrite Eo, So, !tags_app. cbn [tags map]. rewrite cl1_tag. reflexivity.
+    + intros t Ht. rewrite Eq, q0tags_app in Ht. apply in_app_or in Ht as [Ht|Ht]; [exact Ht|]. exfalso.
+      assert (Hm : In m (out s)) by (rewrite So; apply in_or_app; right; left; reflexivity).
+      pose proof (proj1 (Forall_forall _ _) (inv_qos _ _ I) m Hm) as Hqo.
+      pose proof (noq0_cl_pk m Hqo) as Hn. rewrite Ex in Hn. apply Forall_inv in Hn.
+      cbn [q0tags flat_map] in Ht. rewrite (noq0_q0tag x Hn) in Ht. exact Ht.
+Qed.
+
+End Queue3.
+
+Theorem c12_queue_proved : C12_queue_stmt.
+Proof.
+  intros c ops Hcfg Hc. unfold c12_queue_ok, optrace.
+  destruct (lift_flat c Hcfg k12q (qev c) Rq (q_step c Hcfg) Rq_sf (q3_pub0 c Hcfg) (q3_pubw c Hcfg) (q3_connack c Hcfg)
+              ops (init c) (mkK12q [] true) (inv3_init c) Hc) as (s' & H & _).
   - split; [reflexivity|]. split; [reflexivity|]. intros t [].
   - exact H.
 Qed.
@@ -67,8 +238,8 @@ Proof.
   specialize (Sm Hpos). lia.
 Qed.
 
-Print Assumptions c12_window_calm_proved.
-Print Assumptions c12_handed_calm_proved.
-Print Assumptions c12_queue_calm_proved.
+Print Assumptions c12_queue_proved.
+Print Assumptions c12_window_proved.
+Print Assumptions c12_handed_proved.
 Print Assumptions c12_no_idle_slot_reachable.
 Print Assumptions c12_counter_bounded.
